@@ -24,6 +24,19 @@ from simkit.engine import Client, HarnessError, Property, RunBase, Violation
 SCRATCH_ROOT = "/dev/shm" if os.path.isdir("/dev/shm") else tempfile.gettempdir()
 
 
+def relabel_network(net, offset):
+    """the same network with every lanelet id shifted by `offset`"""
+    out = dict(net, lanelets=[])
+    for la in net["lanelets"]:
+        la2 = dict(la, id=la["id"] + offset, pred=[x + offset for x in la.get("pred", [])],
+                   succ=[x + offset for x in la.get("succ", [])])
+        for k in ("adjl", "adjr"):
+            if la.get(k) is not None:
+                la2[k] = la[k] + offset
+        out["lanelets"].append(la2)
+    return out
+
+
 def _kind(spec):
     if spec["role"] == "static":
         return "static"
@@ -53,6 +66,14 @@ class Run(RunBase):
             except Exception:  # noqa
                 pass
         self.shadow = None  # sibling instance after a deepcopy that keeps the original alive
+        if cfg.get("relabelled_twin"):
+            # a second, DIFFERENT scenario living in the same process: same geometry and obstacles, other lanelet ids.
+            # The clients move between the two (swap); state kept per class / per module instead of per network
+            # (a cache keyed by the query only) would carry answers from one into the other.
+            net2 = relabel_network(universe["network"], 1000)
+            self.shadow = {"sc": build.build_scenario({"network": net2, "sid": {"country": "DEU"}}),
+                           "contained": {}, "assigned": {}, "stash": {}}
+            self.probe("second-scenario-with-other-lanelet-ids")
 
     _FIELDS = ("sc", "contained", "assigned", "stash")
 
@@ -423,6 +444,9 @@ class Run(RunBase):
 # ------------------------------------------------------------------ clients
 def _adder(rng, run, cfg):
     while True:
+        if run.shadow is not None and rng.chance(0.25):
+            yield {"op": "swap"}
+            continue
         free = [k for k in sorted(run.pool) if run.pool[k]["id"] not in run.contained and
                 run.pool[k]["id"] not in run.stash]
         yield {"op": "add", "key": rng.pick(free), "preassign": rng.chance(0.3)} if free else None
@@ -488,6 +512,7 @@ class C07(Property):
                        "partially-assigned-obstacle-checked", "standing-obstacle-turns-on-the-spot",
                        "fork-keeps-original", "continued-on-the-other-copy", "creeping-obstacle-crosses-boundary",
                        "set-based-bystander-present", "center-on-lanelet-the-shape-does-not-touch",
+                       "second-scenario-with-other-lanelet-ids",
                        "pre-assigned-obstacle-added", "footprint-exactly-tangent-to-a-lanelet"]
     assumptions = [
         "geometric truth comes from crkit.geom with its don't-care band; the footprint at a time step is read from the "
@@ -500,7 +525,8 @@ class C07(Property):
     ]
 
     def gen_config(self, rng):
-        return {"steps": rng.randint(5, 20), "p_time_steps": rng.pick([0.0, 0.3, 0.6]), "restart_kinds": sorted(rng.subset(RESTARTS, 0.5, at_least=1)),
+        return {"steps": rng.randint(5, 20), "p_time_steps": rng.pick([0.0, 0.3, 0.6]),
+                "relabelled_twin": rng.chance(0.3), "restart_kinds": sorted(rng.subset(RESTARTS, 0.5, at_least=1)),
                 "restarts": rng.chance(0.6), "clients": sorted(rng.subset(["adder", "assigner", "remover", "readder"],
                                                                           0.85, at_least=2))}
 
